@@ -43,7 +43,30 @@ struct xBV { unsigned char* data; size_t size, cap; };
 extern "C" bool xc_ContextualCheckBlock_bip34(const xBV*, int, bool, xState*);
 static std::vector<unsigned char> ref_height_push(int h) { if (h == 0) return {0x00}; if (h <= 16) return {(unsigned char)(0x50 + h)}; std::vector<unsigned char> b; unsigned v = (unsigned)h; while (v) { b.push_back(v & 0xff); v >>= 8; } if (b.back() & 0x80) b.push_back(0); std::vector<unsigned char> r{(unsigned char)b.size()}; r.insert(r.end(), b.begin(), b.end()); return r; }
 
-static CScript sigops_script(unsigned n) { CScript s; for (unsigned k = 0; k < n / 20; k++) s << OP_CHECKMULTISIG; for (unsigned k = 0; k < n % 20; k++) s << OP_CHECKSIG; return s; }
+struct xOpStream { size_t n; const bool* ok; const unsigned char* op; };
+extern "C" unsigned xc_CScript_GetSigOpCount(const xOpStream*, bool);
+// independent decoder + counting rule (BIP16 / consensus): 1 per CHECKSIG(VERIFY); per CHECKMULTISIG(VERIFY) the 1..16 pushed by OP_1..OP_16 right before it in accurate mode, else 20
+static unsigned ref_sigops(const std::vector<unsigned char>& sc, bool accurate, std::vector<char>& oks, std::vector<unsigned char>& ops)
+{
+    unsigned n = 0; int prev = 0xff; size_t p = 0; oks.clear(); ops.clear();
+    while (p < sc.size()) { unsigned op = sc[p++]; size_t len = 0; bool ok = true;
+        if (op <= 75) len = op; else if (op == 76) { if (sc.size() - p < 1) ok = false; else { len = sc[p]; p += 1; } } else if (op == 77) { if (sc.size() - p < 2) ok = false; else { len = sc[p] | (sc[p + 1] << 8); p += 2; } } else if (op == 78) { if (sc.size() - p < 4) ok = false; else { len = sc[p] | (sc[p + 1] << 8) | (sc[p + 2] << 16) | ((size_t)sc[p + 3] << 24); p += 4; } }
+        if (ok && op <= 78) { if (sc.size() - p < len) ok = false; else p += len; }
+        oks.push_back(ok); ops.push_back((unsigned char)op); if (!ok) break;
+        if (op == 0xac || op == 0xad) n += 1; else if (op == 0xae || op == 0xaf) n += (accurate && prev >= 0x51 && prev <= 0x60) ? (unsigned)(prev - 0x50) : 20; prev = (int)op; }
+    return n;
+}
+static void test_sigop_scanner(rv::Rng& r)
+{
+    static const std::vector<std::vector<unsigned char>> FR = {{0xac}, {0xad}, {0xae}, {0xaf}, {0x00}, {0x51}, {0x52}, {0x60}, {0x4f}, {0x61}, {0x01, 0x05}, {0x4c, 0x01, 0xae}, {0x00, 0xae}, {0x00, 0x00, 0xae}, {0x53, 0xae}, {0x60, 0xaf}, {0x51, 0x61, 0xae}, {0x6a}, {0x4c}, {0x4d, 0x05}, {0x02, 0xac}, {0x4e, 0x01, 0x00, 0x00, 0x00, 0xac}};
+    std::vector<unsigned char> sc; size_t nf = r.below(7); for (size_t k = 0; k < nf; k++) { const auto& f = FR[r.below(FR.size())]; sc.insert(sc.end(), f.begin(), f.end()); }
+    for (int acc = 0; acc < 2; acc++) { std::vector<char> oks; std::vector<unsigned char> ops; unsigned want = ref_sigops(sc, acc, oks, ops); CScript s(sc.begin(), sc.end()); unsigned got = s.GetSigOpCount((bool)acc); rv::g_stats.inputs++;
+        std::unique_ptr<bool[]> okb(new bool[oks.size() + 1]); for (size_t k = 0; k < oks.size(); k++) okb[k] = oks[k]; xOpStream xs{oks.size(), okb.get(), ops.data()}; unsigned xg = xc_CScript_GetSigOpCount(&xs, (bool)acc);
+        if (got != xg) DIS("GetSigOpCount(%d) real %u extracted %u", acc, got, xg);
+        if (got != want) { std::string hx; for (auto c : sc) { char b[4]; snprintf(b, 4, "%02x", c); hx += b; } BAD("CScript(%s).GetSigOpCount(accurate=%d) = %u, the counting rule says %u", hx.c_str(), acc, got, want); } }
+}
+static bool g_zero_keys = false;
+static CScript sigops_script(unsigned n) { CScript s; if (g_zero_keys && n >= 20) { s << OP_0 << OP_0 << OP_CHECKMULTISIG; n -= 20; } for (unsigned k = 0; k < n / 20; k++) s << OP_CHECKMULTISIG; for (unsigned k = 0; k < n % 20; k++) s << OP_CHECKSIG; return s; }
 static CTransactionRef mk(bool coinbase, unsigned out_sigops, unsigned in_sigops, unsigned tag, bool bad = false) { CMutableTransaction m; m.vin.resize(1); if (coinbase) { m.vin[0].prevout.SetNull(); m.vin[0].scriptSig = CScript() << tag << OP_0; } else { m.vin[0].prevout = COutPoint(Txid::FromUint256(uint256{(uint8_t)(1 + tag % 200)}), tag); m.vin[0].scriptSig = sigops_script(in_sigops); }
     m.vout.resize(1); m.vout[0].nValue = bad ? -1 : 1; m.vout[0].scriptPubKey = sigops_script(out_sigops); return MakeTransactionRef(m); }
 int main(int argc, char** argv)
@@ -71,9 +94,9 @@ int main(int argc, char** argv)
         for (size_t k = 0; k < nt; k++) { bool cbk = (k == 0) ? lead : r.below(12) == 0; unsigned so = (k + 1 == nt) ? left : (unsigned)r.below(left + 1); unsigned in_part = cbk ? 0 : (unsigned)r.below(so + 1); left -= so; b.vtx.push_back(mk(cbk, so - in_part, in_part, (unsigned)(it * 8 + k), r.below(25) == 0)); }
         run_block(b, pow, mr, "random block");
         // sigop cost of a transaction: legacy in outputs / scriptSig, P2SH redeem script, P2WPKH / P2WSH witness programs
-        { CCoinsViewCache view(&CoinsViewEmpty::Get()); CMutableTransaction m; size_t nin = 1 + r.below(4); uint64_t want_p2sh = 0, want_wit = 0, want_legacy = 0; bool cbt = r.below(10) == 0;
+        { g_zero_keys = r.below(3) == 0; CCoinsViewCache view(&CoinsViewEmpty::Get()); CMutableTransaction m; size_t nin = 1 + r.below(4); uint64_t want_p2sh = 0, want_wit = 0, want_legacy = 0; bool cbt = r.below(10) == 0;
           m.vin.resize(cbt ? 1 : nin); if (cbt) { m.vin[0].prevout.SetNull(); m.vin[0].scriptSig = CScript() << 5 << OP_CHECKSIG; want_legacy += 1; }
-          else for (size_t i = 0; i < nin; i++) { m.vin[i].prevout = COutPoint(Txid::FromUint256(uint256{(uint8_t)(i + 1)}), (uint32_t)it); CScript spk; int kind = (int)r.below(4); unsigned c = (unsigned)r.below(16);
+          else for (size_t i = 0; i < nin; i++) { m.vin[i].prevout = COutPoint(Txid::FromUint256(uint256{(uint8_t)(i + 1)}), (uint32_t)it); CScript spk; int kind = (int)r.below(4); unsigned c = (unsigned)r.below(45);
               if (kind == 0) { spk = sigops_script(c); m.vin[i].scriptSig = CScript() << OP_1; }
               else if (kind == 1) { CScript redeem = sigops_script(c); std::vector<unsigned char> rb(redeem.begin(), redeem.end()); m.vin[i].scriptSig = CScript() << rb; spk = CScript() << OP_HASH160 << std::vector<unsigned char>(20, 7) << OP_EQUAL; want_p2sh += (c / 20) * 20 + c % 20; }
               else if (kind == 2) { spk = CScript() << OP_0 << std::vector<unsigned char>(20, 9); want_wit += 1; }
@@ -100,6 +123,7 @@ int main(int argc, char** argv)
           unsigned char buf[128] = {0}; memcpy(buf, sg.data(), sg.size()); xBV xs{buf, sg.size(), sg.size()}; xState xst{0, 0, 0}; bool xg = xc_ContextualCheckBlock_bip34(&xs, h, active, &xst);
           if (got != xg) DIS("BIP34 fragment height %d", h);
           if (got != wantok || (!got && st.GetRejectReason() != "bad-cb-height")) BAD("BIP34 check at height %d (active %d) on a coinbase scriptSig of %zu bytes starting %02x: %d, expected %d", h, active, sg.size(), sg.empty() ? 0 : sg[0], got, wantok); } }
+    for (uint64_t it = 0; it < n * 3; it++) test_sigop_scanner(r);
     rv::report();
     return rv::g_stats.real_violations ? 1 : (rv::g_stats.disagreements ? 3 : 0);
 }
